@@ -96,7 +96,7 @@ def real(case):
             pass
         # … and a LUMPED object with exactly these macrostate trajectories (finer microstates underneath): equal as a state trajectory, another model
         try:
-            micro = [np.array([2 * int(x) + (i % 2) for i, x in enumerate(t)], dtype=np.int64) for t in trajs]
+            micro = [np.array([2 * int(x) + (1 if (i * 7919 + 3 * int(x)) % 13 < 6 else 0) for i, x in enumerate(t)], dtype=np.int64) for t in trajs]     # aperiodic split
             ts.propagate_MCMC(mh.LumpedStateTraj([t.copy() for t in trajs], micro), case['lag'], 2)
         except Exception:  # noqa
             pass
